@@ -17,6 +17,9 @@ INV = ["PrefixOK", "Exact", "NoEarly413"]
 ACTIONS = ["Feed", "StepPreamble", "StepPart", "StepData", "StepEpilogue"]
 
 
+PREFIX = True       # which preamble rule of Multipart.tla the code implements
+
+
 def forms(tier):
     alpha = "rndbx"
     cs = M.contents(alpha, 3, "ddb")
@@ -135,8 +138,8 @@ def replay_decoder(ctx, g, variant):
 
 def run(ctx):
     fs = forms(ctx.tier)
-    K = dict(Bnd=M.BND, Forms=frozenset(fs), Preambles=frozenset({(), ("x", "d", "d")}), MaxChunk=3 if ctx.tier == "quick" else 4,
-             Limits=frozenset({M.Rec(parts=M.UNL, mem=M.UNL)}), HoldFix=True, OpenFix=True)
+    K = dict(Bnd=M.BND, Forms=frozenset(fs), Preambles=frozenset({(), ("x", "d", "d"), ("x", "d", "d", "b")}), MaxChunk=3 if ctx.tier == "quick" else 4,
+             Limits=frozenset({M.Rec(parts=M.UNL, mem=M.UNL)}), HoldFix=True, OpenFix=True, PreFix=PREFIX)
     ctx.bounds = {"forms": len(fs), "MaxChunk": K["MaxChunk"], "content_alphabet": "r n d b x (s in thorough)", "max_content": 3}
     ctx.rule = ("decoder level: every edge of the TLC graph (all chunkings with chunks <= MaxChunk symbols) executed once on a real "
                 "MultipartDecoder; helper level: every form x {parse_stream, parse_async_stream, wsgi form, asgi form} x byte-level "
@@ -152,6 +155,13 @@ def run(ctx):
     if res.violated:
         raise common.MachineryError("Multipart.tla: " + tlc.describe(res))
     tlc.check_coverage(res, ACTIONS)
+    # witness: a delimiter without its line break accepted anywhere in the preamble must break Exact
+    tlc.write_mc(wd, "MC_MultipartPre", "Multipart", constants=dict(K, PreFix=False, Forms=frozenset(fs[:40])),
+                 cfg_lines=["SPECIFICATION Spec", "CHECK_DEADLOCK FALSE", "INVARIANT Exact"])
+    wres = tlc.run_tlc(wd, "MC_MultipartPre", coverage=False, heap="10g")
+    if wres.violated != "Exact":
+        raise common.MachineryError("witness failed: PreFix=FALSE does not violate Exact (%s)" % wres.violated)
+    ctx.notes.append("witness: the original preamble rule (PreFix=FALSE) violates Exact after %d states" % wres.distinct)
     g = graph.Graph.load(res.dot)
     n = replay_decoder(ctx, g, variant=ctx.seed % 3)
     ctx.bounds["edges_replayed"] = n
@@ -161,7 +171,7 @@ def run(ctx):
     bmaps = [None, {"b": b"a+b.(c)?", "c": b"q"}, {"b": b"--x-", "c": b"q"}, {"b": b"0123456789" * 7, "c": b"q"}]
     k = 0
     for f in fs:
-        for pre in ((), ("x", "d", "d")):
+        for pre in ((), ("x", "d", "d"), ("x", "d", "d", "b")):
             k += 1
             if pre and k % 4:
                 continue
